@@ -1,5 +1,6 @@
 import Goyang.Lemmas.PositionsSem
 import Goyang.Lemmas.PositionsAst
+import Goyang.Lemmas.PositionsTypes
 import Goyang.Lemmas.Uses
 import Goyang.Gen.AstSchema
 /-
@@ -154,6 +155,48 @@ theorem list_attribute_errors_at_substatement (s : Stmt) : ∀ x ∈ (listAttrOf
     (∃ v, s.one? "max-elements" = some v ∧ x = Err.at_ v "bad-max-elements") ∨
     (∃ v, s.one? "min-elements" = some v ∧ x = Err.at_ v "bad-min-elements") := listAttrOf_errs s
 
+/-! ## The assembled pipeline: no assumption left
+
+`Goyang.Model.plugFull` plugs the type layer (`Goyang.Model.Types`: `Type.resolve`,
+`resolveTypedefs`) and the identity layer (`Goyang.Model.Identity`: `resolveIdentities`) into
+`processAll`.  Both keep the discipline, in the finer form. -/
+
+/-- The type, typedef and identity layers of the pipeline only report statements of loaded
+modules: unknown type name or prefix ⇒ the `type` statement; bad range / length ⇒ the `range` /
+`length` statement; bad enum or bit member ⇒ that `enum` / `bit` statement; a typedef without
+usable type ⇒ the `typedef`; identity errors ⇒ the module statement, the `belongs-to` statement or
+the `identity` statement. -/
+theorem plugFull_keeps_positions (reg : Registry) : PlugPositionsAt Names reg (plugFull reg) :=
+  Goyang.Lemmas.PositionsTypes.plugFull_positions reg
+
+/-- `Modules.Process` with all layers in place: every position is a statement start … -/
+theorem pipeline_positions_are_statement_starts (reg : Registry) (opts : Opts) :
+    ∀ e ∈ (processAll reg opts (plugFull reg)).errors, Positioned e → StmtPositions reg e.file e.line e.col :=
+  fun e he => posOK_of_posAt (processAll_errors_ok sites_names (plugFull_keeps_positions reg) opts e he)
+
+/-- … namely that of the statement the error names. -/
+theorem pipeline_positions_name_the_statement (reg : Registry) (opts : Opts) :
+    ∀ e ∈ (processAll reg opts (plugFull reg)).errors, Positioned e → ∃ s, StmtOf reg s ∧ At e s ∧ Names e.cls s :=
+  semantic_positions_name_the_statement reg opts (plugFull reg) (plugFull_keeps_positions reg)
+
+/-- From the files: every positioned error of the whole pipeline after generic parsing
+(`processFiles`: load every file, then `Process`) stands at the start of a statement `s` that occurs
+in one of the given files (below a top-level statement `top` of file `f`), and `s` is the statement
+the error's class names. -/
+theorem processFiles_positions (opts : Opts) (files : List SrcFile) (out : Outcome)
+    (h : processFiles opts files = .ok out) :
+    ∀ e ∈ out.errors, Positioned e →
+      ∃ f ∈ files, ∃ top ∈ f.stmts, ∃ s, Within s top ∧ At e s ∧ Names e.cls s := by
+  unfold processFiles at h
+  split at h
+  · cases h
+  · simp only [Except.ok.injEq] at h
+    subst h
+    intro e he hp
+    obtain ⟨s, ⟨m, hm, hw⟩, hat, hn⟩ := pipeline_positions_name_the_statement (loadFiles files) opts e he hp
+    obtain ⟨f, hf, htop⟩ := Goyang.Lemmas.PositionsTypes.loadFiles_mods files m hm
+    exact ⟨f, hf, m.stmt, htop, s, hw, hat, hn⟩
+
 /-! ## AST builder -/
 
 section AstBuilder
@@ -280,6 +323,15 @@ example : (processAll regT {} plug).errors.map (fun e => (e.file, e.line, e.col,
 example : (processAll regT {} plug).errors.all (posOKb regT) = true := by decide +kernel
 example : (processAll regT {} plug).errors.all (posOKb regT) = true :=
   semantic_positions_check regT {} plug (errorfree_plug_ok _ regT plug (fun _ _ _ => rfl) rfl rfl)
+
+-- the assembled pipeline (`plugFull`): its theorems have no hypotheses.  On
+--   module a { … leaf x { type nosuch; } leaf y { type int8 { range "5..1"; } } leaf z { type string { length "a"; } } }
+-- with the `type` statements at 4:12, 5:12, 6:12, the `range` at 5:24 and the `length` at 6:26,
+-- `#eval (processAll r {} (plugFull r)).errors` gives unknown-type at 4:12, bad-range at 5:24 and
+-- bad-length at 6:26 (the kernel does not evaluate the byte-string functions of the type layer, so
+-- this one is not an `example`).  The hypothesis of `processFiles_positions` is satisfiable:
+example : ∃ out, processFiles {} [] = .ok out := ⟨_, rfl⟩
+example : PlugPositionsAt Names reg (plugFull reg) := plugFull_keeps_positions reg
 
 -- AST builder, over the regenerated table
 open Goyang.Model.Ast in
